@@ -334,29 +334,30 @@ Definition ensure_queued (s : state) (n : Z) (nr : nat) : option state :=
 Definition chosen_is (s : state) (p : nat) (n : Z) : bool :=
   match p_acc (s_peers s p) with AChosen m => m =? n | _ => false end.
 
-(* connection p takes n now *)
+(* connection p, inside accept_block, takes n now: directly if n is what it last read, else after
+   a wake-up *)
+Definition take_now (s2 : state) (p : nat) (n : Z) : option state :=
+  let x2 := s_peers s2 p in
+  let direct := match p_acc x2 with
+                | AWatch _ (Some m) => (m =? n) && contains (p_avail x2) n
+                | _ => false
+                end in
+  match (if direct then step s2 (AAvail p) else steps (step s2 (AWake p)) [AAvail p]) with
+  | None => None
+  | Some s3 =>
+      if chosen_is s3 p n && (match qlookup n (s_q s3) with Some _ => true | None => false end)
+      then step s3 (ATake p) else None
+  end.
+
 Definition replay_take (s : state) (p : nat) (n : Z) (nr : nat) (live : bool) : option state :=
   match ensure_queued s n nr with
   | None => None
   | Some s1 =>
       let x := s_peers s1 p in
       if negb (Bool.eqb (p_alive x) live) then None else
-      let s2 := match p_acc x with AIdle => step s1 (AStart p) | _ => Some s1 end in
-      match s2 with
-      | None => None
-      | Some s2 =>
-          let x2 := s_peers s2 p in
-          let direct := match p_acc x2 with
-                        | AWatch _ (Some m) => (m =? n) && contains (p_avail x2) n
-                        | _ => false
-                        end in
-          let s3 := if direct then step s2 (AAvail p) else steps (step s2 (AWake p)) [AAvail p] in
-          match s3 with
-          | None => None
-          | Some s3 =>
-              if chosen_is s3 p n && (match qlookup n (s_q s3) with Some _ => true | None => false end)
-              then step s3 (ATake p) else None
-          end
+      match p_acc x with
+      | AIdle => match step s1 (AStart p) with Some s2 => take_now s2 p n | None => None end
+      | _ => take_now s1 p n
       end
   end.
 
@@ -457,25 +458,33 @@ Definition obs_state (s : state) (np nr : nat) : list obsv :=
   [ozs (current_blocks s); OL (map (obs_peer s) (seq 0 np));
    OL (map (fun r => obs_req (s_reqs s r)) (seq 0 nr))].
 
+(* one script step: environment actions, the reported events, quiescence *)
+Inductive rres := RFail (code : Z) | ROk (s : state) (stuck : bool).
+Definition replay_step (s : state) (np nr : nat) (x : list action * list ev) : rres :=
+  match run s (fst x) with
+  | None => RFail 3
+  | Some s1 =>
+      match replay_evs s1 nr (snd x) with
+      | None => RFail 1
+      | Some s2 =>
+          match settle s2 np nr with
+          | None => RFail 3
+          | Some (s3, stuck) => ROk s3 stuck
+          end
+      end
+  end.
+
 (* status 0 = accepted and quiescent, 1 = events not reproducible by the model, 2 = the model
-   could still make a visible move (implementation stuck) *)
+   could still make a visible move (implementation stuck), 3 = internal *)
 Fixpoint run_steps (s : state) (np nr : nat) (l : list (list action * list ev)) : list obsv :=
   match l with
   | [] => []
-  | (ops, es) :: l' =>
-      match steps (run s ops) [] with
-      | None => [OL [OZ 3]]
-      | Some s1 =>
-          match replay_evs s1 nr es with
-          | None => [OL [OZ 1; OL (map obs_ev es)]]
-          | Some s2 =>
-              match settle s2 np nr with
-              | None => [OL [OZ 3]]
-              | Some (s3, stuck) =>
-                  OL (OZ (if stuck then 2 else 0) :: OL (map obs_ev es) :: obs_state s3 np nr)
-                  :: (if stuck then [] else run_steps s3 np nr l')
-              end
-          end
+  | x :: l' =>
+      match replay_step s np nr x with
+      | RFail code => [OL [OZ code; OL (map obs_ev (snd x))]]
+      | ROk s3 stuck =>
+          OL (OZ (if stuck then 2 else 0) :: OL (map obs_ev (snd x)) :: obs_state s3 np nr)
+          :: (if stuck then [] else run_steps s3 np nr l')
       end
   end.
 
